@@ -125,6 +125,9 @@ class System:
         for i in two:
             for d in (None, self.delays[2] if len(self.delays) > 2 else self.delays[-1]):
                 ops.append(["send2", i, d])
+        for i in two[:1]:
+            ops.append(["send_dup", i, None])      # two separate events that are equal field by field (the same order placed twice): two deliveries
+            ops.append(["send_dup", i, self.delays[1]])
         for i in two[:2]:
             ops.append(["sendn", i])       # an event of a kind the receiver has no handler for (it is nobody's business; the others still are)
         return ops
@@ -164,6 +167,13 @@ class System:
             elif k == "send2":
                 self._send(m, ref, op[1], op[2])
                 self._send(m, ref, op[1], op[2])
+            elif k == "send_dup":
+                from BPTK_Py import Event, DelayedEvent
+                ref.seq += 1
+                for _ in range(2):
+                    ev = Event("ping", 0, op[1], data=ref.seq) if op[2] is None else DelayedEvent("ping", 0, op[1], op[2], data=ref.seq)
+                    m.enqueue_event(ev)
+                    ref.pending.append([self._due(ref, op[2]), op[1], ref.seq, ref.tick, ref.inc.get(op[1], 0) if op[1] in ref.live else -1])
             elif k == "sendn":
                 from BPTK_Py import Event
                 m.enqueue_event(Event("noise", 0, op[1], data=-1))
